@@ -45,6 +45,7 @@ TOP = {
     "MatrixModel": ["PV.MatrixModel.coeffBlocks", "PV.MatrixModel.coeffUnperturbed", "PV.MatrixModel.coeff_gap"],
     "ModelTheorems": ["PV.MatrixModel.gapped", "PV.MatrixModel.main_theorems"],
     "TwoBlockModel": ["PV.MatrixModel.masks2", "PV.MatrixModel.twoBlocks", "PV.MatrixModel.two_block_theorems"],
+    "CauchyBridge": ["PV.Bridge.sum_antidiagonal_eq_sum_box", "PV.Bridge.coeff_mul_box", "PV.Bridge.coeff_mul_blocks"],
     "Unique": ["PV.lsa_unique", "PV.code_least_action", "PV.C03_unique", "PV.shift_cov", "PV.scale_cov", "PV.natural"],
     "UniqueNH": ["PV.nh_unique", "PV.NH.code_least_action", "PV.natural_nh", "PV.C05_hermitian_limit"],
 }
